@@ -121,7 +121,7 @@ fn nth(len: usize, idx: u64) -> String {
 pub const REDUCED: [&str; 20] = ["1", ".", "e", "+", "-", "*", "/", "^", "%", "(", ")", "{", "}", ",", "m", "t", "o", "é", " ", "\u{3000}"];
 
 pub fn run_check(ctx: &Ctx) {
-    ctx.set_rule("all strings up to the stated length over a 40-symbol alphabet (digits, operators, letters, braces, multi-byte characters, Unicode blanks) are enumerated, plus random longer strings and a fixed family of inputs with one token of 2^16..2^17 bytes (blanks, digits, letters) or with 2 000..65 000 small tokens, and an alignment sweep (a run of 0..130 equal token characters — letters, digits, blanks, degree signs, points — followed by each of 13 multi-byte characters, behind three prefixes and before three suffixes); oracle: tokens non-empty, contiguous, on char boundaries, covering the input, the root parse tree's leaves equal the token sequence (start, end, kind), also right after the unit parser ran on the same string and thread; non-trivial = at least two different token kinds; enumerated strings are distinct by construction");
+    ctx.set_rule("all strings up to the stated length over a 40-symbol alphabet (digits, operators, letters, braces, multi-byte characters, Unicode blanks) are enumerated, plus random longer strings and a fixed family of inputs with one token of 2^16..2^17 bytes (blanks, digits, letters) or with 2 000..65 000 small tokens, and an alignment sweep (a run of 0..130 equal token characters — letters, digits, blanks, degree signs, points — followed by each of 13 multi-byte characters, behind three prefixes and before three suffixes); oracle: tokens non-empty, contiguous, on char boundaries, covering the input, the root parse tree's leaves equal the token sequence (start, end, kind), also right after the unit parser ran on the same string and thread; non-trivial = at least two different token kinds; a part of it again with the most verbose log level enabled (configuration that must not matter); enumerated strings are distinct by construction");
     let corpus: Vec<(String, StrCase)> = load_corpus("C12");
     let cases: Vec<StrCase> = corpus.into_iter().map(|c| c.1).collect();
     ctx.run_list("corpus", &cases, |c| check_str(&c.input, true), |c| to_json(c));
@@ -175,6 +175,20 @@ pub fn run_check(ctx: &Ctx) {
             |s| json!({"input": s}),
         );
     }
+    // the log level is configuration that must not matter: with the most verbose level enabled (the `log` macros
+    // then evaluate their arguments) a part of the above is lexed and parsed once more
+    {
+        log::set_max_level(log::LevelFilter::Trace);
+        for len in 0..=3usize {
+            let total = (ALPHABET.len() as u64).pow(len as u32);
+            ctx.run_enum(&format!("exhaustive-len{}(trace logging on)", len), total, |i| Some(nth(len, i)), |s| check_str(s, false), |s| json!({"input": s, "trace_logging": true}));
+        }
+        let words = ["45°", "90° to rad", "a°", "°C", "5°C to K", "aaaaaaaaaaaaaaa°C", "x'y", "it's 3", "1e5°", "°°°", "é°", "m°s"];
+        let ws: Vec<StrCase> = words.iter().map(|w| StrCase { input: w.to_string() }).collect();
+        ctx.run_list("words-with-degree-signs(trace logging on)", &ws, |c| check_str(&c.input, false), |c| json!({"input": c.input, "trace_logging": true}));
+        ctx.run_gen("random-unicode(trace logging on)", || "[ -~°µ²é日\\u{a0}]{0,24}".prop_map(|s| StrCase { input: s }), n / 10, |c| check_str(&c.input, false), |c| json!({"input": c.input, "trace_logging": true}));
+        log::set_max_level(log::LevelFilter::Off);
+    }
     let huge = huge_token_inputs();
     ctx.run_list("huge-tokens", &huge, |c| check_str(&c.text(), false), |c| to_json(c));
     ctx.run_gen("random-unicode", || ".{0,30}".prop_map(|s| StrCase { input: s }), n / 3, |c| check_str(&c.input, true), |c| to_json(c));
@@ -219,6 +233,9 @@ pub fn huge_token_inputs() -> Vec<HugeCase> {
 }
 
 pub fn replay(ctx: &Ctx, case: &Value) {
+    if case.get("trace_logging").and_then(|v| v.as_bool()) == Some(true) {
+        log::set_max_level(log::LevelFilter::Trace);
+    }
     if case.get("count").is_some() {
         let c: HugeCase = serde_json::from_value(case.clone()).expect("replay file holds a HugeCase");
         ctx.run_list("replay", &[c], |c| check_str(&c.text(), false), |c| to_json(c));
